@@ -8,6 +8,9 @@ CONSTANTS
   Tols = {10}
   Kinds = {"float"}
   Assocs = {"V", "C"}
+  Owns = {FALSE}
+  PGs = {0}
+  AllowCopy = FALSE
   Deviations = {}
 INVARIANT ArraysAligned
 INVARIANT VertexAtDepth
